@@ -273,6 +273,38 @@ def _sb_grid(cfg, base):
     return {"cfg": cfg, "digest": h.hexdigest(), "calls": calls, "viol": short, "viol_counts": seen}
 
 
+def rt_grid(cfg):
+    """cfg = (first, last) resolution in minutes: for EVERY whole-minute resolution in the range, every slot start of a 3-day window
+    (and the instants one second before / after it): index(time(i)) = i, floor-inverse one second around; Scoreboard and Project."""
+    from scriptplan.scheduler.scoreboard import Scoreboard
+
+    h = _h()
+    viol, calls = [], 0
+    one = timedelta(seconds=1)
+    for L in range(cfg[0], cfg[1] + 1):
+        gran = L * 60
+        start = BASE + timedelta(hours=8, minutes=13)
+        end = start + timedelta(days=3)
+        sb = Scoreboard(start, end, gran, 2)
+        proj = _fresh_project(start, end, gran)
+        for i in range(sb.size - 1):
+            t = start + timedelta(seconds=i * gran)
+            for name, obj in (("Scoreboard", sb), ("Project", proj)):
+                for tt, exp in ((t, i), (t + one, i), (t - one, i - 1)):
+                    if exp < 0:
+                        continue
+                    r = _call(h, obj.dateToIdx, tt)
+                    calls += 1
+                    if r != ("ok", exp):
+                        viol.append(("slot-start-index", f"{name}.dateToIdx({tt})={r} expected {exp} at resolution {L} min (slot {i} starts {t})"))
+    seen, short = {}, []
+    for c, d in viol:
+        seen[c] = seen.get(c, 0) + 1
+        if seen[c] <= 2:
+            short.append((c, d))
+    return {"cfg": cfg, "digest": h.hexdigest(), "calls": calls, "viol": short, "viol_counts": seen}
+
+
 def far_grid(cfg):
     """cfg = L minutes: a window of 90 years; index <-> date laws at ~2000 indices spread over it (and around 2^31 seconds,
     where 32-bit arithmetic wraps): the window extension of a project with a very large effort reaches such indices."""
